@@ -46,7 +46,14 @@ type ProcessorNode struct {
 	swapMu  sync.Mutex
 	pending *pendingSwap
 	wakeCh  chan struct{}
+	// stopped is set once Run returned: from then on nobody applies a staged
+	// swap anymore, so Reconfigure must refuse instead of waiting for it.
+	stopped bool
 }
+
+// ErrProcessorNodeNotRunning is returned by Reconfigure if the node's Run
+// stopped (or stops before it got to apply the swap).
+var ErrProcessorNodeNotRunning = cerrors.New("processor node is not running, can't reconfigure it in place")
 
 // pendingSwap is a staged live-reconfigure request. done carries the outcome back
 // to the Reconfigure caller: nil on success, or an error if the new processor
@@ -72,6 +79,19 @@ func (n *ProcessorNode) ID() string {
 }
 
 func (n *ProcessorNode) Run(ctx context.Context) error {
+	// Once Run returns no staged swap is ever applied: fail a swap that is
+	// still pending and make Reconfigure refuse from now on, so its caller never
+	// waits for a goroutine that is gone.
+	defer func() {
+		n.swapMu.Lock()
+		p := n.pending
+		n.pending, n.stopped = nil, true
+		n.swapMu.Unlock()
+		if p != nil {
+			p.done <- ErrProcessorNodeNotRunning
+		}
+	}()
+
 	_, cleanup, err := n.base.Trigger(ctx, n.logger, nil)
 	if err != nil {
 		return err
@@ -258,6 +278,10 @@ func (n *ProcessorNode) Reconfigure(ctx context.Context, newProcessor Processor)
 	wake := n.wake()
 
 	n.swapMu.Lock()
+	if n.stopped {
+		n.swapMu.Unlock()
+		return ErrProcessorNodeNotRunning
+	}
 	if n.pending != nil {
 		n.swapMu.Unlock()
 		return cerrors.New("a processor reconfigure is already in progress")
